@@ -15,6 +15,14 @@ def leftRef (id : Int) : Int :=
 
 def rightRef (id : Int) : Int := if id < 0 then id - 1 else id + 1
 
+/-- what the adjacency theorems need of the generated chains: they compute `leftRef` / `rightRef` (as
+functions — any equivalent way of writing the `if` chains will do) and faster / slower lanes of the
+other direction are discarded -/
+structure AdjWF (c : Cfg) : Prop where
+  left : ∀ id, evalChain c.left id = leftRef id
+  right : ∀ id, evalChain c.right id = rightRef id
+  drop : c.dropOpposite = true
+
 theorem evalChain_left (id : Int) : evalChain refCfg.left id = leftRef id := by
   simp only [refCfg, evalChain, Guard.holds, Expr.eval, leftRef]
   by_cases h1 : id < -1
@@ -30,6 +38,8 @@ theorem evalChain_right (id : Int) : evalChain refCfg.right id = rightRef id := 
   by_cases h1 : id < 0
   · simp [h1]; omega
   · simp [h1]
+
+theorem refCfg_wf : AdjWF refCfg := ⟨evalChain_left, evalChain_right, rfl⟩
 
 theorem leftRef_ne_zero {id : Int} (h : id ≠ 0) : leftRef id ≠ 0 := by
   unfold leftRef; split <;> (try split) <;> (try split) <;> omega
@@ -78,144 +88,135 @@ theorem getId_some {ids : List Int} {x j : Int} (h : getId ids x = some j) : j =
 theorem getId_mem {ids : List Int} {x : Int} (h : x ∈ ids) : getId ids x = some x := by
   simp [getId, h]
 
-theorem adj_left (dr : Bool) (ids : List Int) (id : Int) :
-    (adjOf refCfg dr ids id).left = getId ids (leftRef id) := by
-  simp [adjOf, evalChain_left]
+theorem adj_left {c : Cfg} (w : AdjWF c) (dr : Bool) (ids : List Int) (id : Int) :
+    (adjOf c dr ids id).left = getId ids (leftRef id) := by
+  simp [adjOf, w.left]
 
-theorem adj_right (dr : Bool) (ids : List Int) (id : Int) :
-    (adjOf refCfg dr ids id).right = getId ids (rightRef id) := by
-  simp [adjOf, evalChain_right]
+theorem adj_right {c : Cfg} (w : AdjWF c) (dr : Bool) (ids : List Int) (id : Int) :
+    (adjOf c dr ids id).right = getId ids (rightRef id) := by
+  simp [adjOf, w.right]
 
 /-- **adj_left_reciprocal** (rule `invIf laneSection left right left`): if `j` is the lane to the left
 of `id`, then `j` is a lane of the section and `id` is the lane to the right of `j` when they have
 the same direction, the lane to the left of `j` otherwise -/
-theorem adj_left_reciprocal (dr : Bool) (ids : List Int) (id j : Int) (hid : id ∈ ids) (h0 : id ≠ 0)
-    (h : (adjOf refCfg dr ids id).left = some j) :
+theorem adj_left_reciprocal {c : Cfg} (w : AdjWF c) (dr : Bool) (ids : List Int) (id j : Int)
+    (hid : id ∈ ids) (h0 : id ≠ 0) (h : (adjOf c dr ids id).left = some j) :
     j ∈ ids ∧ j ≠ 0 ∧ j ≠ id ∧
-    (isForward j = isForward id → (adjOf refCfg dr ids j).right = some id) ∧
-    (isForward j ≠ isForward id → (adjOf refCfg dr ids j).left = some id) := by
-  rw [adj_left] at h
+    (isForward j = isForward id → (adjOf c dr ids j).right = some id) ∧
+    (isForward j ≠ isForward id → (adjOf c dr ids j).left = some id) := by
+  rw [adj_left w] at h
   obtain ⟨hj, hmem⟩ := getId_some h
   subst hj
   refine ⟨hmem, leftRef_ne_zero h0, leftRef_ne_self id, ?_, ?_⟩
   · intro hs
-    rw [adj_right, right_left_same h0 hs]
+    rw [adj_right w, right_left_same h0 hs]
     exact getId_mem hid
   · intro hs
-    rw [adj_left, left_left_opposite h0 hs]
+    rw [adj_left w, left_left_opposite h0 hs]
     exact getId_mem hid
 
 /-- **adj_right_reciprocal** (rule `invIf laneSection right left right`): the lane to the right has
 the same direction and has `id` as its lane to the left -/
-theorem adj_right_reciprocal (dr : Bool) (ids : List Int) (id j : Int) (hid : id ∈ ids) (h0 : id ≠ 0)
-    (h : (adjOf refCfg dr ids id).right = some j) :
-    j ∈ ids ∧ j ≠ 0 ∧ j ≠ id ∧ isForward j = isForward id ∧ (adjOf refCfg dr ids j).left = some id := by
-  rw [adj_right] at h
+theorem adj_right_reciprocal {c : Cfg} (w : AdjWF c) (dr : Bool) (ids : List Int) (id j : Int)
+    (hid : id ∈ ids) (h0 : id ≠ 0) (h : (adjOf c dr ids id).right = some j) :
+    j ∈ ids ∧ j ≠ 0 ∧ j ≠ id ∧ isForward j = isForward id ∧ (adjOf c dr ids j).left = some id := by
+  rw [adj_right w] at h
   obtain ⟨hj, hmem⟩ := getId_some h
   subst hj
   obtain ⟨hs, hl⟩ := left_right h0
   refine ⟨hmem, rightRef_ne_zero h0, rightRef_ne_self id, hs, ?_⟩
-  rw [adj_left, hl]
+  rw [adj_left w, hl]
   exact getId_mem hid
 
-theorem keepSameDir_some {id j : Int} {o : Option Int} (h : keepSameDir refCfg id o = some j) :
-    o = some j ∧ isForward j = isForward id := by
+theorem keepSameDir_some {c : Cfg} (w : AdjWF c) {id j : Int} {o : Option Int}
+    (h : keepSameDir c id o = some j) : o = some j ∧ isForward j = isForward id := by
   cases o with
   | none => simp [keepSameDir] at h
   | some k =>
-    simp only [keepSameDir, refCfg, Bool.true_and] at h
+    simp only [keepSameDir, w.drop, Bool.true_and] at h
     by_cases hd : isForward k = isForward id
     · simp [hd] at h; subst h; exact ⟨rfl, hd⟩
     · simp [hd] at h
 
-theorem keepSameDir_keep {id j : Int} (hs : isForward j = isForward id) :
-    keepSameDir refCfg id (some j) = some j := by
-  simp [keepSameDir, refCfg, hs]
+theorem keepSameDir_keep (c : Cfg) {id j : Int} (hs : isForward j = isForward id) :
+    keepSameDir c id (some j) = some j := by
+  simp [keepSameDir, hs]
+
+theorem faster_def (c : Cfg) (dr : Bool) (ids : List Int) (id : Int) :
+    (adjOf c dr ids id).faster = keepSameDir c id
+      (if (dr == c.fasterIsLeftOnRight) = true then (adjOf c dr ids id).left else (adjOf c dr ids id).right) := rfl
+
+theorem slower_def (c : Cfg) (dr : Bool) (ids : List Int) (id : Int) :
+    (adjOf c dr ids id).slower = keepSameDir c id
+      (if (dr == c.fasterIsLeftOnRight) = true then (adjOf c dr ids id).right else (adjOf c dr ids id).left) := rfl
 
 /-- **adj_faster_slower** (rules `link laneSection faster [[slower]] [[]] .eq`, `sameDir`,
 `sub [[faster],[slower]] [[left],[right]]`): the faster lane is the left or right neighbour, has the
-same direction, and has `id` as its slower lane — on either side of the road -/
-theorem adj_faster_slower (dr : Bool) (ids : List Int) (id j : Int) (hid : id ∈ ids) (h0 : id ≠ 0)
-    (h : (adjOf refCfg dr ids id).faster = some j) :
-    isForward j = isForward id ∧ (adjOf refCfg dr ids j).slower = some id ∧
-    ((adjOf refCfg dr ids id).left = some j ∨ (adjOf refCfg dr ids id).right = some j) := by
-  cases dr with
-  | true =>
-    have hf : (adjOf refCfg true ids id).faster = keepSameDir refCfg id (adjOf refCfg true ids id).left := by
-      simp [adjOf, refCfg]
-    rw [hf] at h
-    obtain ⟨hl, hs⟩ := keepSameDir_some h
-    obtain ⟨_, _, _, hr, _⟩ := adj_left_reciprocal true ids id j hid h0 hl
+same direction, and has `id` as its slower lane — whichever side is the fast one -/
+theorem adj_faster_slower {c : Cfg} (w : AdjWF c) (dr : Bool) (ids : List Int) (id j : Int)
+    (hid : id ∈ ids) (h0 : id ≠ 0) (h : (adjOf c dr ids id).faster = some j) :
+    isForward j = isForward id ∧ (adjOf c dr ids j).slower = some id ∧
+    ((adjOf c dr ids id).left = some j ∨ (adjOf c dr ids id).right = some j) := by
+  rw [faster_def] at h
+  rw [slower_def]
+  by_cases hb : (dr == c.fasterIsLeftOnRight) = true
+  · rw [if_pos hb] at h ⊢
+    obtain ⟨hl, hs⟩ := keepSameDir_some w h
+    obtain ⟨_, _, _, hr, _⟩ := adj_left_reciprocal w dr ids id j hid h0 hl
     refine ⟨hs, ?_, Or.inl hl⟩
-    have : (adjOf refCfg true ids j).slower = keepSameDir refCfg j (adjOf refCfg true ids j).right := by
-      simp [adjOf, refCfg]
-    rw [this, hr hs]
-    exact keepSameDir_keep hs.symm
-  | false =>
-    have hf : (adjOf refCfg false ids id).faster = keepSameDir refCfg id (adjOf refCfg false ids id).right := by
-      simp [adjOf, refCfg]
-    rw [hf] at h
-    obtain ⟨hl, hs⟩ := keepSameDir_some h
-    obtain ⟨_, _, _, _, hr⟩ := adj_right_reciprocal false ids id j hid h0 hl
+    rw [hr hs]
+    exact keepSameDir_keep c hs.symm
+  · rw [if_neg hb] at h ⊢
+    obtain ⟨hl, hs⟩ := keepSameDir_some w h
+    obtain ⟨_, _, _, _, hr⟩ := adj_right_reciprocal w dr ids id j hid h0 hl
     refine ⟨hs, ?_, Or.inr hl⟩
-    have : (adjOf refCfg false ids j).slower = keepSameDir refCfg j (adjOf refCfg false ids j).left := by
-      simp [adjOf, refCfg]
-    rw [this, hr]
-    exact keepSameDir_keep hs.symm
+    rw [hr]
+    exact keepSameDir_keep c hs.symm
 
-theorem adj_slower_faster (dr : Bool) (ids : List Int) (id j : Int) (hid : id ∈ ids) (h0 : id ≠ 0)
-    (h : (adjOf refCfg dr ids id).slower = some j) :
-    isForward j = isForward id ∧ (adjOf refCfg dr ids j).faster = some id ∧
-    ((adjOf refCfg dr ids id).left = some j ∨ (adjOf refCfg dr ids id).right = some j) := by
-  cases dr with
-  | false =>
-    have hf : (adjOf refCfg false ids id).slower = keepSameDir refCfg id (adjOf refCfg false ids id).left := by
-      simp [adjOf, refCfg]
-    rw [hf] at h
-    obtain ⟨hl, hs⟩ := keepSameDir_some h
-    obtain ⟨_, _, _, hr, _⟩ := adj_left_reciprocal false ids id j hid h0 hl
+theorem adj_slower_faster {c : Cfg} (w : AdjWF c) (dr : Bool) (ids : List Int) (id j : Int)
+    (hid : id ∈ ids) (h0 : id ≠ 0) (h : (adjOf c dr ids id).slower = some j) :
+    isForward j = isForward id ∧ (adjOf c dr ids j).faster = some id ∧
+    ((adjOf c dr ids id).left = some j ∨ (adjOf c dr ids id).right = some j) := by
+  rw [slower_def] at h
+  rw [faster_def]
+  by_cases hb : (dr == c.fasterIsLeftOnRight) = true
+  · rw [if_pos hb] at h ⊢
+    obtain ⟨hl, hs⟩ := keepSameDir_some w h
+    obtain ⟨_, _, _, _, hr⟩ := adj_right_reciprocal w dr ids id j hid h0 hl
+    refine ⟨hs, ?_, Or.inr hl⟩
+    rw [hr]
+    exact keepSameDir_keep c hs.symm
+  · rw [if_neg hb] at h ⊢
+    obtain ⟨hl, hs⟩ := keepSameDir_some w h
+    obtain ⟨_, _, _, hr, _⟩ := adj_left_reciprocal w dr ids id j hid h0 hl
     refine ⟨hs, ?_, Or.inl hl⟩
-    have : (adjOf refCfg false ids j).faster = keepSameDir refCfg j (adjOf refCfg false ids j).right := by
-      simp [adjOf, refCfg]
-    rw [this, hr hs]
-    exact keepSameDir_keep hs.symm
-  | true =>
-    have hf : (adjOf refCfg true ids id).slower = keepSameDir refCfg id (adjOf refCfg true ids id).right := by
-      simp [adjOf, refCfg]
-    rw [hf] at h
-    obtain ⟨hl, hs⟩ := keepSameDir_some h
-    obtain ⟨_, _, _, _, hr⟩ := adj_right_reciprocal true ids id j hid h0 hl
-    refine ⟨hs, ?_, Or.inr hl⟩
-    have : (adjOf refCfg true ids j).faster = keepSameDir refCfg j (adjOf refCfg true ids j).left := by
-      simp [adjOf, refCfg]
-    rw [this, hr]
-    exact keepSameDir_keep hs.symm
+    rw [hr hs]
+    exact keepSameDir_keep c hs.symm
 
-theorem mem_adjacent (dr : Bool) (ids : List Int) (id j : Int) :
-    j ∈ (adjOf refCfg dr ids id).adjacent ↔
-      (adjOf refCfg dr ids id).left = some j ∨ (adjOf refCfg dr ids id).right = some j := by
-  have : (adjOf refCfg dr ids id).adjacent =
-      (adjOf refCfg dr ids id).left.toList ++ (adjOf refCfg dr ids id).right.toList := by
-    simp [adjOf]
+theorem mem_adjacent (c : Cfg) (dr : Bool) (ids : List Int) (id j : Int) :
+    j ∈ (adjOf c dr ids id).adjacent ↔
+      (adjOf c dr ids id).left = some j ∨ (adjOf c dr ids id).right = some j := by
+  have : (adjOf c dr ids id).adjacent =
+      (adjOf c dr ids id).left.toList ++ (adjOf c dr ids id).right.toList := rfl
   rw [this]
   simp [Option.mem_toList]
 
 /-- **adj_adjacent_symmetric** (rules `link laneSection adjacent [[adjacent]] [[]] .into`,
 `irrefl laneSection adjacent`): adjacency of the lane sections of a section is symmetric and
 irreflexive -/
-theorem adj_adjacent_symmetric (dr : Bool) (ids : List Int) (id j : Int) (hid : id ∈ ids) (h0 : id ≠ 0)
-    (h : j ∈ (adjOf refCfg dr ids id).adjacent) :
-    j ≠ id ∧ id ∈ (adjOf refCfg dr ids j).adjacent := by
+theorem adj_adjacent_symmetric {c : Cfg} (w : AdjWF c) (dr : Bool) (ids : List Int) (id j : Int)
+    (hid : id ∈ ids) (h0 : id ≠ 0) (h : j ∈ (adjOf c dr ids id).adjacent) :
+    j ≠ id ∧ id ∈ (adjOf c dr ids j).adjacent := by
   rw [mem_adjacent] at h
   rcases h with h | h
-  · obtain ⟨_, _, hne, h1, h2⟩ := adj_left_reciprocal dr ids id j hid h0 h
+  · obtain ⟨_, _, hne, h1, h2⟩ := adj_left_reciprocal w dr ids id j hid h0 h
     refine ⟨hne, ?_⟩
     rw [mem_adjacent]
     by_cases hs : isForward j = isForward id
     · exact Or.inr (h1 hs)
     · exact Or.inl (h2 hs)
-  · obtain ⟨_, _, hne, _, h1⟩ := adj_right_reciprocal dr ids id j hid h0 h
-    exact ⟨hne, (mem_adjacent dr ids j id).mpr (Or.inl h1)⟩
+  · obtain ⟨_, _, hne, _, h1⟩ := adj_right_reciprocal w dr ids id j hid h0 h
+    exact ⟨hne, (mem_adjacent c dr ids j id).mpr (Or.inl h1)⟩
 
 /-! ### lane order of a road section -/
 
